@@ -233,14 +233,76 @@ def slot_tables(run, repo):
     return out
 
 
+LSQ = ('numpy.polyfit', 'scipy.optimize.curve_fit')
+
+
+def lib_target(m, f):
+    """dotted library name of a call target (np.polyfit -> numpy.polyfit, curve_fit -> scipy.optimize.curve_fit)"""
+    chain = []
+    while isinstance(f, ast.Attribute):
+        chain.append(f.attr)
+        f = f.value
+    if not isinstance(f, ast.Name):
+        return None
+    al = m.aliases.get(f.id)
+    if not al:
+        return None
+    base = al[1] if al[0] == 'module' else al[1] + '.' + al[2]
+    return '.'.join([base] + list(reversed(chain)))
+
+
+def repo_callees(repo, m, fn):
+    """module-level functions of the repository called (by name) inside fn: [(module, FunctionDef)]"""
+    out = []
+    for c_ in ast.walk(fn):
+        if isinstance(c_, ast.Call) and isinstance(c_.func, (ast.Name, ast.Attribute)):
+            r = repo.resolve_expr(m, c_.func)
+            if isinstance(r, tuple) and r[0] == 'function' and (r[1], r[2]) not in out:
+                out.append((r[1], r[2]))
+    return out
+
+
+def lsq_calls(repo, m, fn, _seen=None):
+    """every least-squares library call reachable from fn through functions of the repository:
+    [(module, enclosing FunctionDef, Call, library name)]"""
+    seen = _seen if _seen is not None else set()
+    if id(fn) in seen:
+        return []
+    seen.add(id(fn))
+    out = []
+    for c_ in ast.walk(fn):
+        if isinstance(c_, ast.Call):
+            t = lib_target(m, c_.func)
+            if t in LSQ:
+                out.append((m, fn, c_, t))
+    for m2, f2 in repo_callees(repo, m, fn):
+        out.extend(lsq_calls(repo, m2, f2, seen))
+    return out
+
+
+def cp_fit_of(repo, qual):
+    """the heat-capacity fit of a polynomial family, found by its role: the one function called by the public
+    <Class>.from_data from which a least-squares library call is reached (its name and signature are the
+    class's own business)"""
+    ci = repo.cls(qual)
+    owner, fd = repo.find_method(ci, 'from_data')
+    cands = [(m2, f2) for m2, f2 in repo_callees(repo, owner.module, fd) if lsq_calls(repo, m2, f2)]
+    if len(cands) != 1:
+        raise AnchorError('%s.from_data: expected one callee that reaches np.polyfit/curve_fit, found %s'
+                          % (qual, [f2.name for _, f2 in cands]))
+    return cands[0]
+
+
+def fit_qual(mf):
+    return '%s.%s' % (mf[0].name, mf[1].name)
+
+
 def fit_shapes(run, repo, tables):
-    specs = (('nasa', NASA, '_fit_CpoR', 0), ('nasa9', NASA, '_fit_CpoR9', 2), ('shomate', SHO, '_fit_CpoR', None))
+    specs = (('nasa', NASA + '.Nasa', 0), ('nasa9', NASA + '.Nasa9', 2), ('shomate', SHO + '.Shomate', None))
     n_inst = 0
-    for fam, mod, fname, shift in specs:
-        m = repo.module(mod)
-        fn = m.functions.get(fname)
-        if fn is None:
-            raise AnchorError('%s.%s not found' % (mod, fname))
+    for fam, cqual, shift in specs:
+        m, fn = cp_fit_of(repo, cqual)
+        mod, fname = m.name, fn.name
         run.fn('%s.%s' % (mod, fname))
         tab = tables[fam]
         sh = Shape(m, fn, repo)
@@ -301,10 +363,7 @@ def fit_shapes(run, repo, tables):
                                   'fitted parameter lands in slot %d which has no Cp basis' % i, m, r)
         # the polynomial fitted must be Cp * T**shift
         if shift is not None:
-            for c_ in [c_ for c_ in ast.walk(fn) if isinstance(c_, ast.Call) and ast.unparse(c_.func) == 'np.polyfit'] \
-                    + [c_ for f2 in m.functions.values() for c_ in ast.walk(f2)
-                       if f2.name == '_get_CpoR_MSE' and fam == 'nasa' and isinstance(c_, ast.Call)
-                       and ast.unparse(c_.func) == 'np.polyfit']:
+            for m_c, _f_c, c_, _t in [x for x in lsq_calls(repo, m, fn) if x[3] == 'numpy.polyfit']:
                 y = None
                 for k in c_.keywords:
                     if k.arg == 'y':
@@ -320,7 +379,7 @@ def fit_shapes(run, repo, tables):
                 run.check(got_shift == shift, 'SLOT.power', '%s.%s' % (mod.split('.')[-1], fname),
                           'polyfit-y:%s' % norm(y)[:40],
                           'the fitted quantity is Cp*T^%s, expected Cp*T^%d for this coefficient layout'
-                          % (got_shift, shift), m, c_)
+                          % (got_shift, shift), m_c, c_)
     return n_inst
 
 
@@ -336,17 +395,17 @@ def fit_stub(I, names, n, zeros):
 def nasa7_pipeline(run, repo, tables):
     ci = repo.cls(NASA + '.Nasa')
     owner, fn = repo.find_method(ci, 'from_data')
-    run.fn(owner.qual + '.from_data', NASA + '._fit_HoRT', NASA + '._fit_SoR')
+    run.fn(owner.qual + '.from_data')
     m = repo.module(NASA)
     tab = tables['nasa']
     zeros = set(tab['hconst'] + tab['sconst'])
     n = 0
     for label, rank in (('T_ref<T_mid', 2), ('T_ref=T_mid', 3), ('T_ref>T_mid', 4)):
-        I = Interp(repo, order=RankOrder({'Tm': 3, 'T_ref': rank}), max_depth=12)
+        I = Interp(repo, order=RankOrder({'Tm': 3, 'T_ref': rank}))
         D = I.D
         lo, hi = fit_stub(I, 'l', 7, zeros), fit_stub(I, 'h', 7, zeros)
         Tm = D.sym('Tm')
-        I.opaque_funcs[NASA + '._fit_CpoR'] = lambda I_, fr, a, k, nd: ListV([lo, hi, Tm])
+        I.opaque_funcs[fit_qual(cp_fit_of(repo, NASA + '.Nasa'))] = lambda I_, fr, a, k, nd: ListV([lo, hi, Tm])
         Tref, Href, Sref = D.sym('T_ref'), D.sym('HoRT_ref'), D.sym('SoR_ref')
         Tdata = Elem(D.sym('Tdata'))
         o = I.call_function(owner.module, fn, [], {'name': 'sp', 'T': Tdata, 'CpoR': Elem(D.sym('Cpdata')),
@@ -393,17 +452,17 @@ def nasa7_pipeline(run, repo, tables):
 def nasa9_pipeline(run, repo, tables, max_seg):
     ci = repo.cls(NASA + '.Nasa9')
     owner, fn = repo.find_method(ci, 'from_data')
-    run.fn(owner.qual + '.from_data', NASA + '._fit_HoRT9', NASA + '._fit_SoR9')
+    run.fn(owner.qual + '.from_data')
     m = repo.module(NASA)
     tab = tables['nasa9']
     zeros = set(tab['hconst'] + tab['sconst'])
     n = 0
     for nseg in range(1, max_seg + 1):
         for j in range(nseg):
-            I = Interp(repo, max_depth=12)
+            I = Interp(repo)
             D = I.D
             stubs = [fit_stub(I, 's%d_' % k, 9, zeros) for k in range(nseg)]
-            I.opaque_funcs[NASA + '._fit_CpoR9'] = lambda I_, fr, a, k, nd, st=stubs: ListV(list(st))
+            I.opaque_funcs[fit_qual(cp_fit_of(repo, NASA + '.Nasa9'))] = lambda I_, fr, a, k, nd, st=stubs: ListV(list(st))
             tmid = ListV([D.sym('Tm%d' % k) for k in range(nseg - 1)])
             tmid.is_array = True
             Tref, Href, Sref = D.sym('T_ref'), D.sym('HoRT_ref'), D.sym('SoR_ref')
@@ -459,14 +518,14 @@ def nasa9_pipeline(run, repo, tables, max_seg):
 def shomate_pipeline(run, repo, tables):
     ci = repo.cls(SHO + '.Shomate')
     owner, fn = repo.find_method(ci, 'from_data')
-    run.fn(owner.qual + '.from_data', SHO + '._fit_HoRT', SHO + '._fit_SoR')
+    run.fn(owner.qual + '.from_data')
     m = repo.module(SHO)
     tab = tables['shomate']
     zeros = set(tab['hconst'] + tab['sconst'] + tab['dead'])
-    I = Interp(repo, max_depth=12)
+    I = Interp(repo)
     D = I.D
     stub = fit_stub(I, 'c', 8, zeros)
-    I.opaque_funcs[SHO + '._fit_CpoR'] = lambda I_, fr, a, k, nd: stub
+    I.opaque_funcs[fit_qual(cp_fit_of(repo, SHO + '.Shomate'))] = lambda I_, fr, a, k, nd: stub
     Tref, Href, Sref, units = D.sym('T_ref'), D.sym('HoRT_ref'), D.sym('SoR_ref'), D.sym('units')
     o = I.call_function(owner.module, fn, [], {'name': 'sp', 'T': Elem(D.sym('Tdata')),
                                                'CpoR': Elem(D.sym('Cpdata')), 'T_ref': Tref, 'HoRT_ref': Href,
@@ -508,7 +567,7 @@ def from_model(run, repo):
         ci = repo.cls(qual)
         owner, fn = repo.find_method(ci, 'from_model')
         run.fn(owner.qual + '.from_model')
-        I = Interp(repo, max_depth=12)
+        I = Interp(repo)
         D = I.D
         calls = {}
 
@@ -610,11 +669,13 @@ def from_model(run, repo):
 
 
 def masks(run, repo):
-    m = repo.module(NASA)
-    fn = m.functions.get('_get_CpoR_MSE')
-    if fn is None:
-        raise AnchorError(NASA + '._get_CpoR_MSE not found')
-    run.fn(NASA + '._get_CpoR_MSE')
+    # the function that splits the data: where the two-range NASA-7 fit calls np.polyfit
+    fm, ff = cp_fit_of(repo, NASA + '.Nasa')
+    sites = {(id(f2)): (m2, f2) for m2, f2, _c, t in lsq_calls(repo, fm, ff) if t == 'numpy.polyfit'}
+    if len(sites) != 1:
+        raise AnchorError('NASA-7 fit: np.polyfit is called in %d functions, expected 1' % len(sites))
+    (m, fn), = sites.values()
+    run.fn('%s.%s' % (m.name, fn.name))
     cmps = {}
     for st in ast.walk(fn):
         if isinstance(st, ast.Assign) and isinstance(st.value, ast.Compare) and len(st.value.ops) == 1 \
@@ -633,7 +694,7 @@ def masks(run, repo):
         same_ops = norm(a.left) == norm(b.left) and norm(a.comparators[0]) == norm(b.comparators[0])
         pair = {type(a.ops[0]), type(b.ops[0])}
         ok = same_ops and pair in ({ast.LtE, ast.Gt}, {ast.Lt, ast.GtE})
-    run.check(ok, 'DATAFLOW.masks', 'nasa._get_CpoR_MSE', 'low/high masks',
+    run.check(ok, 'DATAFLOW.masks', 'nasa NASA-7 two-range fit', 'low/high masks',
               'the low and high fit masks are not complementary comparisons of T with T_mid (a data point would be '
               'used twice or dropped)', m, fn)
     return 1
@@ -692,7 +753,7 @@ MUTANTS = [
      'edits': [(S_, "        * c.R(units)*T_ref/c.prefixes['k']\n    a[7]", "        * c.R(units)*T_ref\n    a[7]")]},
     {'name': 'NASA-7 fit keeps polyfit order (no reversal)', 'expect': ('SLOT.power', '_fit_CpoR'),
      'edits': [(N, 'a_low_out = np.concatenate((a_low_rev[::-1], empty_arr))', 'a_low_out = np.concatenate((a_low_rev, empty_arr))')]},
-    {'name': 'masks overlap at T_mid', 'expect': ('DATAFLOW.masks', '_get_CpoR_MSE'),
+    {'name': 'masks overlap at T_mid', 'expect': ('DATAFLOW.masks', 'NASA-7 two-range fit'),
      'edits': [(N, '    high_condition = (T > T_mid)', '    high_condition = (T >= T_mid)')]},
     {'name': 'Nasa T_high from T_mid', 'expect': ('DATAFLOW.bounds', 'Nasa.from_data'),
      'edits': [(N, '        T_high = max(T)\n\n        # Find midpoint temperature, and a[0] through a[4] parameters\n        a_low, a_high, T_mid_out', '        T_high = min(T)\n\n        # Find midpoint temperature, and a[0] through a[4] parameters\n        a_low, a_high, T_mid_out')]},
